@@ -12,6 +12,11 @@
 //!   P <dom> <i> <j> <eq> <cmp> <siphash equal> <hash stream equal>     eq: 0/1/P  cmp: L/E/G/P
 //!   S <dom> <gid> <n> <distinct dumps> <BTreeSet len|P> <HashSet len|P> <ids,...>
 //!   M <dom> <id> <kind>                  how the value was derived (base / neighbour kind), for the histogram
+//!   WV desc <id> <warm==fresh> <cmp(warm,fresh)> <hash same> <clone(warm)==fresh> <clone(warm)==warm> <dump(clone(warm)) same> <hash(clone(warm)) same>
+//!   W desc <i> <j> <state> <eq> <cmp> <siphash equal>     the pair under a history: which operand had its spend-info
+//!        cache filled (script_pubkey()) before the comparison. state: LW left warmed, RW right warmed, BW both,
+//!        CB both are clones of warmed values, CF left is a clone of a warmed value and right is fresh.
+//!        Warmed operands are separate instances obtained by re-parsing the string form (never by clone).
 use crate::ast::{self, hex, CtxInfo, Gen, Key, Rng, World, B, N_KEYS, N_PRE};
 use crate::tree::{self, at, paths, replace_at, Tg, T};
 use bitcoin::hashes::Hash as _;
@@ -685,12 +690,184 @@ fn run_desc(w: &World, seed: u64, nbase: usize) -> Dom<Descriptor<Key>> {
         d.all_pairs(&cl);
         d.groups.push(ids);
     }
+    mirror_family(w, &mut d);
     let n = d.vals.len();
     for _ in 0..(nbase * 4) {
         let (i, j, k) = (rng.below(n as u64) as usize, rng.below(n as u64) as usize, rng.below(n as u64) as usize);
         d.all_pairs(&[i, j, k]);
     }
     d
+}
+
+/// a full / chain-shaped tap tree over leaf indices, for the mirror-image family
+#[derive(Clone)]
+enum Shp {
+    L(usize),
+    N(Box<Shp>, Box<Shp>),
+}
+fn shp_full(depth: u32, next: &mut usize) -> Shp {
+    if depth == 0 {
+        *next += 1;
+        Shp::L(*next - 1)
+    } else {
+        let l = shp_full(depth - 1, next);
+        let r = shp_full(depth - 1, next);
+        Shp::N(Box::new(l), Box::new(r))
+    }
+}
+fn shp_chain(n: usize, from: usize) -> Shp {
+    if n == 1 {
+        Shp::L(from)
+    } else {
+        Shp::N(Box::new(Shp::L(from)), Box::new(shp_chain(n - 1, from + 1)))
+    }
+}
+fn shp_mirror(s: &Shp) -> Shp {
+    match s {
+        Shp::L(i) => Shp::L(*i),
+        Shp::N(l, r) => Shp::N(Box::new(shp_mirror(r)), Box::new(shp_mirror(l))),
+    }
+}
+/// swap the two children of the node at depth `at` on the path that always takes the deeper (else left) child
+fn shp_swap_at(s: &Shp, at: u32) -> Shp {
+    fn depth(s: &Shp) -> u32 {
+        match s {
+            Shp::L(_) => 0,
+            Shp::N(l, r) => 1 + depth(l).max(depth(r)),
+        }
+    }
+    match s {
+        Shp::L(i) => Shp::L(*i),
+        Shp::N(l, r) => {
+            if at == 0 {
+                Shp::N(r.clone(), l.clone())
+            } else if depth(r) > depth(l) {
+                Shp::N(l.clone(), Box::new(shp_swap_at(r, at - 1)))
+            } else {
+                Shp::N(Box::new(shp_swap_at(l, at - 1)), r.clone())
+            }
+        }
+    }
+}
+fn shp_tree(s: &Shp, leaves: &[Arc<Miniscript<Key, Tap>>]) -> Option<TapTree<Key>> {
+    match s {
+        Shp::L(i) => Some(TapTree::leaf(Arc::clone(&leaves[*i]))),
+        Shp::N(l, r) => TapTree::combine(shp_tree(l, leaves)?, shp_tree(r, leaves)?).ok(),
+    }
+}
+
+/// directed family: tr descriptors whose trees are mirror images of each other or differ by one swapped
+/// sibling pair at depth 1, 2, 3 (BIP341 sorts sibling hashes: same merkle root, same output key), with equal
+/// and different internal keys
+fn mirror_family(w: &World, d: &mut Dom<Descriptor<Key>>) {
+    let mut leaves: Vec<Arc<Miniscript<Key, Tap>>> = Vec::new();
+    for i in 0..8usize {
+        let t = if i < 6 {
+            T::pk(i)
+        } else {
+            T::bin(Tg::AndV, T::un(Tg::Verify, T::pk(i - 6)), T::leaf(Tg::Older, i as u32))
+        };
+        if let Some((m, true)) = tree::build::<Tap>(w, true, &t) {
+            leaves.push(Arc::new(m));
+        }
+    }
+    if leaves.len() < 8 {
+        return;
+    }
+    let mut shapes: Vec<(Shp, u32)> = Vec::new();
+    for depth in 1..=3u32 {
+        let mut n = 0;
+        shapes.push((shp_full(depth, &mut n), depth));
+    }
+    shapes.push((shp_chain(4, 0), 3));
+    shapes.push((shp_chain(3, 2), 2));
+    for (base, depth) in &shapes {
+        let mut fam: Vec<(String, Shp)> = vec![("tr-mirror-base".into(), base.clone()), ("tr-mirror".into(), shp_mirror(base))];
+        for at in 0..*depth {
+            fam.push((format!("tr-swap-depth{}", at + 1), shp_swap_at(base, at)));
+        }
+        let mut ids = Vec::new();
+        for ik in [0usize, 1] {
+            for (kind, s) in &fam {
+                if let Some(x) = Descriptor::new_tr(w.key(ik, true), shp_tree(s, &leaves)).ok() {
+                    let dump = ddump(w, &x);
+                    ids.push(d.add(x, dump, true, kind));
+                }
+            }
+        }
+        ids.sort();
+        ids.dedup();
+        d.all_pairs(&ids);
+        d.groups.push(ids);
+    }
+}
+
+/// history (cache-state) observations on descriptor pairs, see the header comment
+fn emit_history(w: &World, d: &Dom<Descriptor<Key>>) {
+    use std::str::FromStr;
+    let reparse = |x: &Descriptor<Key>| -> Option<Descriptor<Key>> {
+        let y = Descriptor::<Key>::from_str(&x.to_string()).ok()?;
+        if ddump(w, &y) == ddump(w, x) {
+            Some(y)
+        } else {
+            None
+        }
+    };
+    let n = d.vals.len();
+    let mut warm: Vec<Option<Descriptor<Key>>> = Vec::with_capacity(n);
+    let mut wclone: Vec<Option<Descriptor<Key>>> = Vec::with_capacity(n);
+    for x in &d.vals {
+        let y = reparse(x).and_then(|y| {
+            // fill the spend-info cache (Tr) the way callers do
+            catch_unwind(AssertUnwindSafe(|| {
+                let _ = y.script_pubkey();
+                if let Descriptor::Tr(ref t) = y {
+                    let _ = t.spend_info();
+                }
+            }))
+            .ok()?;
+            Some(y)
+        });
+        let c = y.as_ref().and_then(|y| catch_unwind(AssertUnwindSafe(|| y.clone())).ok());
+        warm.push(y);
+        wclone.push(c);
+    }
+    let b = |x: bool| if x { 1 } else { 0 };
+    for i in 0..n {
+        if let (Some(y), Some(c)) = (&warm[i], &wclone[i]) {
+            let x = &d.vals[i];
+            println!(
+                "WV {} {} {} {} {} {} {} {} {}",
+                d.name,
+                i,
+                c_eq(y, x),
+                c_cmp(y, x),
+                b(sip(y) == sip(x) && record(y) == record(x)),
+                c_eq(c, x),
+                c_eq(c, y),
+                b(ddump(w, c) == d.dumps[i]),
+                b(sip(c) == sip(x))
+            );
+        }
+    }
+    for &(i, j) in &d.pairs {
+        if !(d.dumps[i].starts_with("tr ") && d.dumps[j].starts_with("tr ")) {
+            continue;
+        }
+        let (xi, xj) = (&d.vals[i], &d.vals[j]);
+        let states: [(&str, Option<&Descriptor<Key>>, Option<&Descriptor<Key>>); 5] = [
+            ("LW", warm[i].as_ref(), Some(xj)),
+            ("RW", Some(xi), warm[j].as_ref()),
+            ("BW", warm[i].as_ref(), warm[j].as_ref()),
+            ("CB", wclone[i].as_ref(), wclone[j].as_ref()),
+            ("CF", wclone[i].as_ref(), Some(xj)),
+        ];
+        for (name, a, bb) in states {
+            if let (Some(a), Some(bb)) = (a, bb) {
+                println!("W {} {} {} {} {} {} {}", d.name, i, j, name, c_eq(a, bb), c_cmp(a, bb), b(sip(a) == sip(bb)));
+            }
+        }
+    }
 }
 
 // ---------------------------------------------------------------- policies
@@ -1113,6 +1290,7 @@ fn run_inner(args: &[String]) {
     }
     let dd = run_desc(&w, seed, if thorough { 120 } else { 30 });
     emit(&dd, &|x: &Descriptor<Key>| ddump(&w, x), &[], false);
+    emit_history(&w, &dd);
     let (dc, ds) = run_pol(&w, seed, if thorough { 200 } else { 50 });
     emit(&dc, &|x: &Concrete<Key>| cdump(&w, x), &[], false);
     emit(&ds, &|x: &SemH| sdump(&w, &x.0), &[], false);
